@@ -2672,6 +2672,18 @@ struct DecWorld : World {
                 Gen gd { r };
                 gd.next_probe = 0;
                 int hist = (int)r.range(d == probe_d ? 1 : 0, 4);
+                if (d == probe_d && r.chance(0.15)) {
+                    // the whole life of the probe decoder under a cap of a few active HMMs per frame: every utterance then
+                    // ends with its beams narrowed to almost nothing, the state the next one must not inherit
+                    Json k = Json::object();
+                    k.set("maxhmmpf", (double)r.pick(std::vector<int> { 1, 2, 2, 5 }));
+                    Json op = Json::object();
+                    op.set("op", "knobs");
+                    op.set("set", k);
+                    gd.push(op, d);
+                    if (hist < 2)
+                        hist = 2;
+                }
                 for (int u = 0; u < hist; ++u)
                     gd.utterance(d, ts[(size_t)d], u == 0 || r.chance(0.5), false, r.chance(0.3), r.chance(0.2), 48000, 0.15, true, r.chance(0.3));
                 if (d == probe_d) {
